@@ -908,17 +908,26 @@ fn real_main() {
                 .collect();
             for &s in &subj_s {
                 let v = s.vbytes();
-                let lmax = if thorough { 3 * 4 * v + 2 * v } else { 4 * v + 3 * v + 1 };
+                // pairs / triples of matches: all lengths up to 7V+1 (thorough 10V);
+                // single matches (and single holes): on to 14V resp. at least
+                // 290 bytes, so that code gated on an absolute length (say
+                // `len >= 256`) is entered at the real vector widths too
+                let lmax = if thorough { 10 * v } else { 4 * v + 3 * v + 1 };
                 let lmax = args.num("lmax", lmax as u64) as usize;
+                let lsingle = args.num("lsingle", if thorough { (14 * v).max(300) } else if matches!(s, Subject::Vn(_)) { lmax } else { lmax.max(290) } as u64) as usize;
                 let lens: Vec<usize> = (0..=lmax).collect();
+                let lens1: Vec<usize> = (lmax + 1..=lsingle).collect();
                 let deltas = [1, v - 1, v, v + 1, 2 * v, 3 * v, 4 * v];
                 let ks = if thorough && v <= 8 { 3 } else if thorough || v <= 8 { 2 } else { 1 };
                 let ks = args.num("ks", ks as u64) as usize;
                 for k in 1..=3u8 {
                     let ksk = if k == 1 { ks } else { ks.min(2) };
                     run_sparse(&mut total, &[s], k, &ops, &lens, s.aligns(), ksk, ksk.min(2), &deltas, &[Place::Plain], nd, other);
+                    if !lens1.is_empty() {
+                        run_sparse(&mut total, &[s], k, &ops, &lens1, s.aligns(), 1, 1, &[], &[Place::Plain], nd, other);
+                    }
                 }
-                bounds.insert(format!("sparse/{}", s.name()), json!({"max_len": lmax, "max_matches": ks, "pair_deltas": deltas, "start_offsets": s.aligns()}));
+                bounds.insert(format!("sparse/{}", s.name()), json!({"max_len": lmax, "max_matches": ks, "single_match_max_len": lsingle, "pair_deltas": deltas, "start_offsets": s.aligns()}));
             }
         }
         // Haystack flush against PROT_NONE pages (hardware-fault monitor).
@@ -1006,6 +1015,92 @@ fn real_main() {
             });
             total.merge(rep);
             bounds.insert("long".into(), json!({"lens": lens.len(), "max_len": lens.last(), "rule": "V*{255,256,257} + {0,1,V-1,V,V+1,2V+3} for V in {8,16,32,64,128}"}));
+        }
+        // Long haystacks with ONE match near either end (or none), at the
+        // lengths where code gated on a length threshold - absolute (256,
+        // 1024, 2048, 4096) or a multiple of the vector size - would first
+        // be entered; all start offsets, every needle role, both fills.
+        "long-single" => {
+            let subj_s: Vec<Subject> = args.str("subjects", "vn2,vn4,vn8,swar,sse2,avx2,top").split(',').map(Subject::parse).collect();
+            for &s in &subj_s {
+                let v = s.vbytes();
+                let mut lens: Vec<usize> = vec![];
+                for t in [8usize, 16, 32, 33, 64, 65, 128, 129] {
+                    for d in [0usize, 1, v - 1] {
+                        lens.push(v * t + d);
+                    }
+                }
+                if !matches!(s, Subject::Vn(_)) {
+                    lens.extend_from_slice(&[256, 257, 1024, 1025, 2048, 2049, 4096, 4100]);
+                }
+                lens.sort();
+                lens.dedup();
+                let aligns = if thorough { s.aligns() } else { s.aligns().min(4 * v).min(64) };
+                let rep = par::run_items(&lens, |_, &len, r| {
+                    let mut big = Arena::plain(len / 4096 + 3);
+                    let mut data = vec![other; len];
+                    let span = (6 * v).min(len);
+                    let mut positions: Vec<Option<usize>> = vec![None];
+                    positions.extend((0..span).map(Some));
+                    positions.extend((len - span..len).map(Some));
+                    positions.sort();
+                    positions.dedup();
+                    let mut order = 0u64;
+                    for k in 1..=3u8 {
+                        for role in 0..k as usize {
+                            for &pos in &positions {
+                                for b in data.iter_mut() {
+                                    *b = other;
+                                }
+                                if let Some(p) = pos {
+                                    data[p] = nd[role];
+                                }
+                                for a in 0..aligns {
+                                    for fill in [nd[0], other] {
+                                        if fill == other && matches!(s, Subject::Vn(_)) {
+                                            continue;
+                                        }
+                                        let hay = big.place_fill(2048 + a, &data, fill, fill, 64);
+                                        order += 1;
+                                        r.states += 1;
+                                        for &op in &ops {
+                                            if op == Op::Count && k != 1 {
+                                                continue;
+                                            }
+                                            r.evaluations += 1;
+                                            r.nontrivial += 1;
+                                            let exp = expected(k, op, nd, hay);
+                                            let got = guarded(|| call(s, k, op, nd, hay));
+                                            let bad = match &got {
+                                                Err(m) => Some(("panic", format!("panicked: {}", m))),
+                                                Ok(o) if o.res != exp => Some(("wrong_result", format!("returned {:?}, reference {:?}", o.res, exp))),
+                                                Ok(o) => match (&o.stats, &o.raw_problem) {
+                                                    (Some(st), _) if st.oob > 0 || st.misaligned > 0 => Some(("oob_load", format!("{} load(s) outside the haystack / {} misaligned", st.oob, st.misaligned))),
+                                                    (_, Some(p)) => Some(("raw_form", p.clone())),
+                                                    _ => None,
+                                                },
+                                            };
+                                            if let Some((class, what)) = bad {
+                                                r.violation(Violation {
+                                                    class: class.into(),
+                                                    key: ((len as u64) << 20) | (order & 0xfffff),
+                                                    what: format!("[{}] {} {}{} on a {}-byte haystack with its only match at {:?} (needle #{}), start offset {}, neighbour fill {:02x}: {}", class, s.name(), op.name(), k, len, pos, role + 1, a, fill, what),
+                                                    replay_argv: vec!["long-single".into(), "--subjects".into(), s.name(), "--ops".into(), op.name().into()],
+                                                    detail: json!({"class": class, "subject": s.name(), "op": op.name(), "k": k, "len": len, "match_at": pos, "offset": a, "fill": fill}),
+                                                });
+                                            }
+                                        }
+                                    }
+                                }
+                            }
+                        }
+                    }
+                    r.bump_by(&format!("calls/{}", s.name()), order);
+                    r.sample(len as u64, || json!({"subject": s.name(), "len": len, "single_match_positions": format!("none, 0..{}, {}..{}", span, len - span, len), "start_offsets": aligns}));
+                });
+                total.merge(rep);
+                bounds.insert(format!("long-single/{}", s.name()), json!({"lens": lens, "match_positions": "none, each of the first and last 6V positions", "start_offsets": aligns}));
+            }
         }
         "raw-edges" => {
             run_raw_edges(&mut total);
